@@ -359,7 +359,7 @@ func translate(p *TrPlan, tape *simrt.Tape, keepLog bool) (results []trResult, l
 	if p.Module == "scratch" {
 		modDir = scratchDir
 	}
-	s := simrt.New(simrt.Config{Tape: tape, KeepLog: keepLog, MaxSteps: 50_000_000})
+	s := simrt.New(simrt.Config{DaemonsOK: true, Tape: tape, KeepLog: keepLog, MaxSteps: 50_000_000})
 	tr := p.config()
 	if p.FileOrderSeed != 0 {
 		simpackages.Permute = func(pkgPath string, files []string) []int {
